@@ -60,3 +60,29 @@ Theorem C14_delsa : forall daddr proto spi seq pid,
                    (family_of daddr) (ip_packed daddr) (be_decode spi) (Z.to_N proto)).
 Proof. exact delsa_roundtrip. Qed.
 Print Assumptions C14_delsa.
+
+From Xfrm Require Import NewsaProofs.
+
+(** NEWSA, for ALL parameter values inside [wf_sa] (IPv4/IPv6 selectors and endpoints, every port, prefix length,
+    protocol, 4-byte SPI, ESP/AH, mode, algorithm names below 64 bytes without NUL, keys up to 64 bytes, lifetime
+    -1 or 0 .. 2^64-11) and all seq/pid: the builder does not raise, and the kernel-side decoder (struct nlmsghdr,
+    struct xfrm_usersa_info, strict nla_parse, struct xfrm_algo - all at the C offsets of Gen/KernelUapi.v) reads
+    exactly [intended_newsa]: header length = total length, type NEWSA, REQUEST|ACK, seq, pid; selector family,
+    addresses of that family, network-order ports with masks 0/0xFFFF, prefix lengths, protocol; id.daddr, SPI,
+    IPsec protocol, saddr, family, mode; byte/packet limits XFRM_INF, soft = lifetime / hard = lifetime + 10 (0/0
+    for -1); every other field 0; XFRMA_ALG_CRYPT only for ESP and XFRMA_ALG_AUTH, each with nla_len = 4 + payload,
+    4-aligned, NUL-terminated name, alg_key_len = 8 * len key, the key bytes; no other attribute. *)
+Theorem C14_newsa : forall a seq pid,
+  wf_sa a -> wf32 seq -> wf32 pid ->
+  let r := emit_newsa a in
+  emit_request r seq pid = Ok (message_bytes r seq pid) /\
+  kernel_decode_newsa (message_bytes r seq pid) = Some (intended_newsa a seq pid).
+Proof. exact newsa_roundtrip. Qed.
+Print Assumptions C14_newsa.
+
+(** The only byte-order disagreement between the ctypes mirror and the header (dport_mask / sport_mask are host
+    order in XfrmSelector, __be16 in struct xfrm_selector) is immaterial for the two values the code stores. *)
+Theorem C14_mask_order_free : forall port,
+  let m := (if Z.eqb port 0 then 0 else 65535)%Z in enc LE 2 (trunc 2 m) = enc BE 2 (trunc 2 m).
+Proof. exact mask_order_free. Qed.
+Print Assumptions C14_mask_order_free.
